@@ -1,4 +1,6 @@
 import MJ.Proofs.Store
+import MJ.Proofs.StoreIter
+import MJ.Proofs.Hidden
 import MJ.Gen.Tables
 /-!
 # C15 — an environment's behaviour depends on its contents, not on its history
@@ -19,9 +21,13 @@ Property theorems only (helper lemmas live in `MJ/Proofs/Store.lean`).
   (`MemoMap: Clone`, `BTreeMap: Clone`), the three registries are `Arc`s mutated through
   `Arc::make_mut`.
 
-Everything here is about the *sequential* behaviour.  Threads, the thread-local buffer pools of the
-code generator, the serialisation flag and the value-handle registry are not in the model; the
-harness validates them (concurrent renders vs. a fresh environment), it does not prove them.
+The store/registry part is about the *sequential* behaviour.  The hidden state of the engine — every
+static, thread-local and interior-mutable field, enumerated from the source — is classified in
+`MJ/Model/Hidden.lean` (`all_hidden_state_classified`); each class has a small model of the
+discipline that keeps it from influencing results (once-cells, buffer pools, the value-handle
+registry here; the serialisation flag, the id counters and the copy-on-write registries in
+`MJ/Model/Store.lean`).  Interleavings of threads are not modelled beyond the total order of the
+state-id counter; the harness validates concurrent renders against a fresh environment.
 -/
 namespace MJ.C15
 open MJ.Store
@@ -225,6 +231,77 @@ theorem templates_lists_each_name_once (c : LtCfg → Source → Bool) (k : List
 example : ((Store.empty.run (fun _ _ => true) [.addOwned 0 3, .addBorrowed 0 4, .addOwned 1 3]).iter).map (·.1) = [0, 1] := by
   decide
 
+/-- `templates()` lists exactly what the store holds: `(n, t)` is listed iff a lookup of `n` is answered
+    with `t` from the store itself, without consulting the loader — in every reachable state -/
+theorem templates_lists_contents (c : LtCfg → Source → Bool) (k : List Op) (n : Name) (t : Tmpl) :
+    (n, t) ∈ (Store.empty.run c k).iter ↔ (Store.empty.run c k).flat.contents n = some t :=
+  Store.mem_iter_iff _ (Store.run_inv c k _ Store.empty_inv) n t
+
+example : -- a borrowed template, an owned one and one memoised from the loader are listed; an evicted one is not
+    let c : LtCfg → Source → Bool := fun _ _ => true
+    let s := Store.empty.run c [.setLoader (fun n => if n = 2 then .src 7 else .missing), .addOwned 0 3,
+                                .addBorrowed 0 4, .addOwned 1 5, .get 2, .get 3]
+    s.iter = [(0, (4, cfgA)), (2, (7, cfgA)), (1, (5, cfgA))] := by
+  decide
+
+/-! ## `add_template_owned` with borrowed parts; `Environment::empty()` -/
+
+/-- Which arm of `insert_cow` an addition takes is decided as the model says — the borrowed arm needs
+    BOTH the name and the source borrowed — and the patterns of the two arms in the source are the
+    ones this was read off. -/
+theorem insert_arm_selection :
+    MJ.Gen.c15InsertArmPatterns = ["(Cow::Borrowed(source), Cow::Borrowed(name))", "(source, name)"] ∧
+    insertArmOf true true = true ∧ insertArmOf true false = false ∧
+    insertArmOf false true = false ∧ insertArmOf false false = false := by
+  decide
+
+/-- … and whichever arm is taken, whatever was stored under the name in EITHER tier is replaced: the
+    name afterwards denotes the new source under the current configuration, and `templates()` lists
+    it — once, like every name. -/
+theorem any_arm_replaces_both_tiers (c : LtCfg → Source → Bool) (s : Store) (hs : s.Inv) (n : Name)
+    (src : Source) (nb sb : Bool) (h : c s.cfg src = true) :
+    let op := if insertArmOf nb sb then Op.addBorrowed n src else Op.addOwned n src
+    ((s.step c op).1.get c n).2 = .found (src, s.cfg) ∧
+    (n, (src, s.cfg)) ∈ (s.step c op).1.iter ∧ ((s.step c op).1.iter.map (·.1)).Nodup := by
+  intro op
+  have hi : (s.step c op).1.Inv := Store.step_inv c s op hs
+  have hnd := Store.iter_names_nodup _ hi
+  have hf : ((s.step c op).1.get c n).2 = .found (src, s.cfg) := by
+    by_cases ha : insertArmOf nb sb = true
+    · simp only [op, ha, if_true]; exact (readd_is_a_load c s n src h).1
+    · simp only [op, ha]; exact (readd_is_a_load c s n src h).2
+  refine ⟨hf, ?_, hnd⟩
+  have hc : (s.step c op).1.flat.contents n = some (src, s.cfg) := by
+    have := (store_step_flat c (s.step c op).1 (.get n)).1
+    have h2 : ((s.step c op).1.flat.step c (.get n)).2 = .found (src, s.cfg) := by rw [← this]; exact hf
+    by_cases hcn : (s.step c op).1.flat.contents n = some (src, s.cfg)
+    · exact hcn
+    · exfalso
+      have hcfg : (s.step c op).1.flat.cfg = s.cfg := by
+        by_cases ha : insertArmOf nb sb = true
+        · simp [op, ha, Store.step, h, Store.flat, Spec.flat, Store.abs]
+        · simp [op, ha, Store.step, h, Store.flat, Spec.flat, Store.abs]
+      have hex : ∃ t, (s.step c op).1.flat.contents n = some t := by
+        by_cases ha : insertArmOf nb sb = true
+        · refine ⟨(src, s.cfg), ?_⟩
+          rw [flat_contents_store]
+          simp [op, ha, Store.step, h, find_ins_self]
+        · refine ⟨(src, s.cfg), ?_⟩
+          rw [flat_contents_store]
+          simp [op, ha, Store.step, h, find_ins_self, find_del_self]
+      obtain ⟨t, ht⟩ := hex
+      simp only [Flat.step, Flat.get, ht] at h2
+      simp only [Res.found.injEq] at h2
+      exact hcn (h2 ▸ ht)
+  exact (Store.mem_iter_iff _ hi n _).mpr hc
+
+example : -- name borrowed, source owned (owned arm) over a borrowed template: one entry afterwards
+    let c : LtCfg → Source → Bool := fun _ _ => true
+    let s := Store.empty.run c [.addBorrowed 0 1]
+    let op := if insertArmOf true false then Op.addBorrowed 0 2 else Op.addOwned 0 2
+    (s.step c op).1.iter = [(0, (2, cfgA))] := by
+  decide
+
 /-! ## registries and clones -/
 
 /-- `add_*`/`remove_*` through `Arc::make_mut` act as map update on the environment they are called
@@ -315,6 +392,40 @@ example : -- original, clone; the clone changes a filter, a template and both co
         = some (some (3, cfgB), 1, some 5, none) := by
   decide
 
+/-! ## `Environment::empty()` -/
+
+/-- `Environment::empty()` is `Environment::new()` with everything taken out again: after removing
+    every builtin filter, test and global and installing the auto-escape callback that never escapes,
+    an environment created by `new()` has the value of one created by `empty()` — and therefore
+    (`env_history_independent`) behaves like it under every continuation. -/
+theorem empty_env_is_stripped_new (c : LtCfg → Source → Bool) (f t g : Registry) (k : List EOp) :
+    ((World.init f t g).runAt c 0 (stripOps f t g)).resultsAt c 0 k = World.initEmpty.resultsAt c 0 k := by
+  have hv := World.stripped_new_value c f t g
+  have h1 : ((World.init f t g).runAt c 0 (stripOps f t g)).WF := by
+    generalize stripOps f t g = ops
+    have h0 := World.init_WF f t g
+    generalize World.init f t g = w at h0
+    induction ops generalizing w with
+    | nil => exact h0
+    | cons op ops ih => exact ih _ (World.step_WF c w _ h0)
+  have hl : 0 < ((World.init f t g).runAt c 0 (stripOps f t g)).stores.length := by
+    generalize stripOps f t g = ops
+    have h0 : 0 < (World.init f t g).stores.length := by simp [World.init]
+    generalize World.init f t g = w at h0
+    induction ops generalizing w with
+    | nil => exact h0
+    | cons op ops ih => exact ih _ (by rw [World.step_at_length]; exact h0)
+  have h2 : World.initEmpty.WF := by
+    refine ⟨?_, ?_, ?_, rfl, rfl, rfl, rfl⟩ <;> (intro a ha; simp [World.initEmpty] at ha; subst ha; simp [World.initEmpty])
+  exact (env_history_independent c _ _ h1 h2 0 0 hl (by simp [World.initEmpty]) hv k).1
+
+example : -- new() has `upper`; stripped it is unknown as in empty(), and a template is compiled unescaped
+    let c : LtCfg → Source → Bool := fun _ _ => true
+    let w := (World.init [(1, 9)] [(1, 9)] [(1, 9)]).runAt c 0 (stripOps [(1, 9)] [(1, 9)] [(1, 9)])
+    (w.view 0).map (fun v => (v.filters 1, v.tests 1, v.globals 1, v.store.cfg.autoEscape)) = some (none, none, none, 2) ∧
+    (World.initEmpty.view 0).map (fun v => (v.filters 1, v.tests 1, v.globals 1, v.store.cfg.autoEscape)) = some (none, none, none, 2) := by
+  decide
+
 /-! ## state identity: a macro belongs to the render that created it -/
 
 /-- With ONE process-wide counter, for any interleaving `ts` of renders started by any number of
@@ -397,6 +508,113 @@ example :
     let s : Store := { loader := some (fun _ => .panics), cfg := cfgA, borrowed := [], owned := [] }
     (s.get (fun _ _ => true) 0).2 = .panicked := by decide
 
+/-! ## hidden state: every static, thread-local and interior-mutable field has a class -/
+
+open MJ.Hidden in
+/-- The list of process-global, thread-local and interior-mutable state regenerated from
+    `minijinja/src` for this run is exactly the list `MJ/Model/Hidden.lean` classifies: a new static,
+    `thread_local!`, `OnceLock`, `Cell`/`RefCell`/`Mutex`/atomic field, memo map or pool — or one
+    `OnceLock` filled at a second site — fails this theorem until it is given a class. -/
+theorem all_hidden_state_classified : MJ.Gen.c15HiddenState = modelHiddenState.map (·.1) := by
+  decide
+
+open MJ.Hidden in
+example : -- every class is inhabited
+    ∀ cls : StateClass, ∃ row ∈ modelHiddenState, row.2 = cls := by
+  intro cls; cases cls <;> decide
+
+open MJ.Hidden in
+/-- `onceCache`: whatever threads read a once-cell, in whatever order and however often, starting
+    from an empty cell, every read returns the value of the (one, argument-less) initialiser: the
+    cell's content is determined by the code, not by the history. -/
+theorem once_cache_is_content_determined {α : Type} (init : Unit → α) (n : Nat) :
+    ∀ v ∈ (Once.mk (none : Option α)).reads init n, v = init () :=
+  Once.reads_eq_init init n _ (Or.inl rfl)
+
+open MJ.Hidden in
+example : (Once.mk (none : Option Nat)).reads (fun _ => 7) 3 = [7, 7, 7] := by decide
+
+open MJ.Hidden in
+/-- Why "filled at one site" is part of the table: a cell shared by two initialisers keeps the value
+    of whichever ran first — what `Environment::empty()` gets would depend on whether an
+    `Environment::new()` was created before (the own mutation m15). -/
+theorem shared_once_cell_depends_on_history :
+    ∃ (a b : Unit → Nat),
+      (((Once.mk none).getOrInit a).1.getOrInit b).2 ≠ (((Once.mk none).getOrInit b).1.getOrInit b).2 :=
+  ⟨fun _ => 0, fun _ => 2, by decide⟩
+
+open MJ.Hidden in
+/-- `pool`: when taking a buffer clears it, or recycling does, every buffer ever handed out by `take`
+    is empty — whatever the holders pushed, whether they recycled their buffer, dropped it while
+    unwinding, or found the pool full. -/
+theorem pool_buffer_is_cleared {α : Type} (takeClears recycleClears : Bool)
+    (h : (takeClears || recycleClears) = true) (evs : List (PoolEv α)) :
+    ∀ b ∈ (Pool.empty.run takeClears recycleClears evs).handedOut, b = [] :=
+  (Pool.run_clean takeClears recycleClears h evs _ (Pool.empty_clean recycleClears)).2
+
+open MJ.Hidden in
+example : -- a buffer comes back with two spans in it and is taken again
+    (Pool.empty.run true false [.take, .push 0 (5 : Nat), .push 0 6, .recycle 0, .take]).handedOut = [[], []] ∧
+    (Pool.empty.run false true [.take, .push 0 (5 : Nat), .push 0 6, .recycle 0, .take]).handedOut = [[], []] := by
+  decide
+
+open MJ.Hidden in
+/-- … and with neither clear a later generator starts with the leftovers of an earlier one -/
+theorem pool_without_clears_leaks :
+    ∃ evs : List (PoolEv Nat), ∃ b ∈ (Pool.empty.run false false evs).handedOut, b ≠ [] :=
+  ⟨[.take, .push 0 5, .recycle 0, .take], [5], by decide, by decide⟩
+
+open MJ.Hidden in
+/-- the pools found in the source are the modelled ones and each has at least one of the two clears
+    (dropping ONE of them is a harmless change and does not fail this) -/
+theorem source_pools_safe :
+    MJ.Gen.c15Pools.map (·.1) = modelPools.map (·.1) ∧ ∀ row ∈ MJ.Gen.c15Pools, poolSafe row = true := by
+  decide
+
+open MJ.Hidden in
+/-- `freshKeyRegistry`: the value-handle registry with its one-entry fast path is a map.  Whatever it
+    holds (entries a foreign serializer or an unwound conversion left behind), parking a value under
+    a handle that is not in use and taking it back returns that value and leaves every other entry
+    as it was. -/
+theorem leaked_handles_never_returned (r : HandleReg) (hr : r.Inv) (h v : Nat) (hf : r.lookup h = none) :
+    ((r.insert h v).remove true h).2 = some v ∧
+    ((r.insert h v).remove true h).1.Inv ∧
+    ∀ k, ((r.insert h v).remove true h).1.lookup k = r.lookup k := by
+  have hi := HandleReg.insert_inv r h v hr
+  refine ⟨?_, HandleReg.remove_inv _ h hi, fun k => ?_⟩
+  · rw [HandleReg.remove_result _ h hi, HandleReg.lookup_insert]; simp
+  · rw [HandleReg.remove_lookup _ h k hi, HandleReg.lookup_insert]
+    by_cases e : k = h
+    · subst e; simp [hf]
+    · simp [e]
+
+open MJ.Hidden in
+example : -- two leaked entries, then a conversion parks and takes back a third value
+    let r := (HandleReg.empty.insert 1 100).insert 2 200
+    r.lookup 3 = none ∧ ((r.insert 3 7).remove true 3).2 = some 7 ∧
+    ((r.insert 3 7).remove true 3).1.lookup 1 = some 100 := by
+  decide
+
+open MJ.Hidden in
+/-- The single slot holds an entry only while it is the registry's ONLY entry, so taking it whenever
+    it is occupied ("handles come back in LIFO order") is the same as comparing its handle — for
+    every handle that is in the registry.  (The own mutation m08 is therefore not a behavioural
+    change for handles the engine hands out.) -/
+theorem lifo_remove_agrees_when_present (r : HandleReg) (hr : r.Inv) (h : Nat) (hp : r.lookup h ≠ none) :
+    r.remove false h = r.remove true h :=
+  HandleReg.lifo_agrees_when_present r h hr hp
+
+open MJ.Hidden in
+example : ((HandleReg.empty.insert 1 100).insert 2 200).lookup 2 ≠ none := by decide
+
+open MJ.Hidden in
+/-- the facts about `ValueHandleRegistry` found in the source are the modelled ones; `insert` keeps the
+    single-slot invariant (the comparison in `remove` is recorded, not demanded: see above) -/
+theorem source_handle_registry_as_modelled :
+    MJ.Gen.c15HandleRegistry.map (·.1) = modelHandleRegistry.map (·.1) ∧
+    handleRegistrySafe MJ.Gen.c15HandleRegistry = true := by
+  decide
+
 /-! ## tie to the source text -/
 
 /-- The structural facts of `loader.rs`, `environment.rs`, `template.rs`, `lexer.rs` and
@@ -405,16 +623,17 @@ example :
     loader / run-time, the fields of the load-time configuration, the event order in both
     `insert_cow` arms (compile, evict, insert — no early return, no look at the stored entry), the
     lookup order of `get`, the tiers `remove`/`clear` touch, the process-wide `STATE_ID`, the
-    derived `Clone`s, every `thread_local!` of the crate, every `Drop` guard that restores one (its
-    condition must be the guard's own flag and nothing else) and the clearing of pooled buffers. -/
+    derived `Clone`s, every `thread_local!` of the crate and every `Drop` guard that restores one (its
+    condition must be the guard's own flag and nothing else).  (Pools, the handle registry and the full
+    list of hidden state: `source_pools_safe`, `source_handle_registry_as_modelled`,
+    `all_hidden_state_classified`.) -/
 theorem source_tables_match_model :
     MJ.Gen.c15Setters = modelSetters ∧
     MJ.Gen.c15TemplateConfig = modelTemplateConfig ∧ MJ.Gen.c15WhitespaceConfig = modelWhitespaceConfig ∧
     MJ.Gen.c15InsertArms = modelInsertArms ∧ MJ.Gen.c15GetOrder = modelGetOrder ∧
     MJ.Gen.c15RemoveTiers = modelRemoveTiers ∧ MJ.Gen.c15ClearTiers = modelClearTiers ∧
     MJ.Gen.c15StateId = modelStateId ∧ MJ.Gen.c15CloneDerives = modelCloneDerives ∧
-    MJ.Gen.c15ThreadLocals = modelThreadLocals.map (·.1) ∧ MJ.Gen.c15DropGuards = modelDropGuards ∧
-    MJ.Gen.c15PoolTakeClears = modelPoolTakeClears := by
+    MJ.Gen.c15ThreadLocals = modelThreadLocals.map (·.1) ∧ MJ.Gen.c15DropGuards = modelDropGuards := by
   decide
 
 end MJ.C15
